@@ -64,6 +64,8 @@ structure Manager where
   sinceChange : Nat := 0
   perID : Nat := 0
   closed : Bool := false
+  /-- [UQUIC] `connIDLimit`: the active_connection_id_limit a QUICSpec advertised (0 otherwise) -/
+  connIDLimit : Nat := 0
 deriving Repr, DecidableEq
 
 def Manager.new (initialDest : Bytes) : Manager := { activeID := initialDest }
@@ -152,7 +154,7 @@ def Manager.addProbingRetired (m : Manager) (seq rpt : Nat) : Nat :=
 def Manager.addFrame (m : Manager) (seq rpt : Nat) (id tok : Bytes) (draw : Nat) : Manager × List Ev × Res :=
   let r := m.add seq rpt id tok draw
   match r.2.2 with
-  | .ok => if r.1.queue.length ≥ enforcedQueueBound then (r.1, r.2.1, .err .limitError) else r
+  | .ok => if r.1.queue.length ≥ max enforcedQueueBound r.1.connIDLimit then (r.1, r.2.1, .err .limitError) else r
   | _ => r
 
 /-- `AddFromPreferredAddress` -/
@@ -188,6 +190,9 @@ def Manager.get (m : Manager) (draw : Nat) : Manager × List Ev × Res :=
   if m.closed then (m, [], .panic)
   else if m.shouldUpdateConnID then m.updateConnectionID draw
   else (m, [], .ok)
+
+/-- `SetConnectionIDLimit` (u_conn_id_manager.go) -/
+def Manager.setConnectionIDLimit (m : Manager) (n : Nat) : Manager := { m with connIDLimit := n }
 
 def Manager.setHandshakeComplete (m : Manager) : Manager := { m with hsComplete := true }
 
@@ -234,6 +239,7 @@ inductive Op where
   | close
   | setTok (t : Bytes)
   | changeInitial (id : Bytes)
+  | setLimit (n : Nat)
 deriving Repr, DecidableEq
 
 /-- one step: new state, callbacks in order, outcome -/
@@ -248,6 +254,7 @@ def Manager.step (m : Manager) : Op → Manager × List Ev × Res
   | .close => let r := m.close; (r.1, r.2, .ok)
   | .setTok t => m.setStatelessResetToken t
   | .changeInitial id => let r := m.changeInitialConnID id; (r.1, [], r.2)
+  | .setLimit n => (m.setConnectionIDLimit n, [], .ok)
 
 /-- run a history; returns the final state and all callbacks in order -/
 def Manager.run (m : Manager) : List Op → Manager × List Ev
